@@ -429,7 +429,7 @@ def child(t):
         return t[2]
     if k in ("NullTerminated", "NullStripped", "GreedyRange", "Optional", "Rebuild", "Default", "ByteSwapped", "BitsSwapped",
              "RawCopy", "Hex", "HexDump", "OneOf", "NoneOf", "Bitwise", "Bytewise", "Peek", "Enum", "FlagsEnum", "Mapping", "Lazy",
-             "Renamed"):
+             "Renamed", "Discard"):
         return t[1]
     if k == "ProcessRotateLeft":
         return t[3]
@@ -708,6 +708,9 @@ def P(t, s, ctx, path):
         return P(t[3] if t[3] is not None else ["Pass"], s, ctx, path)
     if k in ("Rebuild", "Default", "Hex", "HexDump"):
         return P(t[1], s, ctx, path)           # Hex/HexDump only change how the value is displayed
+    if k == "Discard":
+        P(t[1], s, ctx, path)                  # same bytes consumed, same context effects, nothing collected
+        return []
     if k in ("OneOf", "NoneOf"):
         v = P(t[1], s, ctx, path)
         ok = any(same_value(v, x) for x in t[2])
@@ -1230,6 +1233,9 @@ def B(t, v, w, ctx, path):
     if k in ("Hex", "HexDump"):
         B(t[1], v, w, ctx, path)
         return v
+    if k == "Discard":
+        B(t[1], v, w, ctx, path)
+        return []
     if k in ("OneOf", "NoneOf"):
         ok = any(same_value(v, x) for x in t[2])
         if ok != (k == "OneOf"):
@@ -1442,7 +1448,7 @@ def sizeof_(t, ctx, path):
             raise Reject("PaddingError", "", path)
         return n
     if k in ("Enum", "FlagsEnum", "Mapping", "Rebuild", "Default", "Hex", "HexDump", "OneOf", "NoneOf", "ProcessXor",
-             "ProcessRotateLeft"):
+             "ProcessRotateLeft", "Discard"):
         return sizeof_(child(t), ctx, path)
     if k == "ConstB":
         return len(t[1])
